@@ -287,7 +287,7 @@ func runC10(b *mon.B) {
 			b.Inconclusive("configuration did not load: %v", err)
 			continue
 		}
-		ref.Net.KeepLog = false
+		ref.Net.SetKeepLog(false)
 		for k := 0; k < perCfg; k++ {
 			caseNo++
 			scope := r.Intn(len(w.Scopes))
